@@ -1,10 +1,11 @@
 ----------------------------- MODULE WakeupConf -----------------------------
 (* C03 - conformance of recorded REAL schedules with Wakeup.tla (code -> spec).
 
-   A trace is what harness/sched.py recorded during one run of the real
-   Manager on real threads: one record per step of a thread from one labelled
-   point (a label of Wakeup.tla, see LABELS in harness/drivers/c03.py) to its
-   next one,
+   A trace is [cfg |-> [variant, timer, names (the firer threads), fires],
+   steps |-> <<...>>]: what harness/sched.py recorded during one run of the real
+   Manager on real threads in that configuration, one record per step of a
+   thread from one labelled point (a label of Wakeup.tla, see LINE_LABELS /
+   OP_LABELS in harness/drivers/c03.py) to its next one,
 
      [t |-> thread, l |-> label it leaves, nl |-> label it reaches ("Done" at
       the end of the thread), hs |-> 1 if the observable snapshot after the
@@ -45,11 +46,17 @@ Match(rec) == /\ pc[rec.t] = rec.l
               /\ pc'[rec.t] = rec.nl
               /\ LET want == Want(rec) IN rec.hs = 1 => Seen' = want
 
-TInit == /\ InitIdle
-         /\ tid \in 1..Len(Traces) /\ i = 1 /\ bad = "" /\ badline = 0
+Named(c, f) == \E j \in 1..Len(c.names) : c.names[j] = f
 
-TNext == /\ i <= Len(Traces[tid]) /\ bad = ""
-         /\ LET rec == Traces[tid][i] IN
+TInit == /\ tid \in 1..Len(Traces) /\ i = 1 /\ bad = "" /\ badline = 0
+         /\ InitIdle
+         /\ LET c == Traces[tid].cfg IN
+              /\ variant = c.variant
+              /\ timer = c.timer
+              /\ quota = [f \in Firers |-> IF Named(c, f) THEN c.fires ELSE 0]
+
+TNext == /\ i <= Len(Traces[tid].steps) /\ bad = ""
+         /\ LET rec == Traces[tid].steps[i] IN
               \/ /\ Match(rec)
                  /\ i' = i + 1
                  /\ UNCHANGED <<tid, bad, badline>>
@@ -59,5 +66,5 @@ TNext == /\ i <= Len(Traces[tid]) /\ bad = ""
 
 TSpec == TInit /\ [][TNext]_tvars
 
-Report == (bad # "" \/ i = Len(Traces[tid]) + 1) => PrintT(<<"VERDICT", tid, bad, badline>>)
+Report == (bad # "" \/ i = Len(Traces[tid].steps) + 1) => PrintT(<<"VERDICT", tid, bad, badline>>)
 =============================================================================
